@@ -493,8 +493,19 @@ def run(tier, seed):
         "cannot be written in a generated case (harness.core.g_str) and is only covered by the probe",
     ]
     return rep.finish("proof", ob, trusted_base=core.TRUSTED_BASE_COMMON + [
-        "Model/Collator.v is hand-written; tied to collator.py, dimension.py (_Subtotals, _Subtotal.anchor, "
-        "hidden_idxs, prune) and the order helpers of matrix/stripe assembler.py by this correspondence run only"])
+        "Model/Collator.v is hand-written; tied to dimension.py (_Subtotals, _Subtotal.anchor, hidden_idxs, prune) and "
+        "the order helpers of matrix/stripe assembler.py by this correspondence run only; every member of "
+        "PayloadOrderCollator / ExplicitOrderCollator (collator.py) is ALSO tied to the source text by the C07_gen_* "
+        "obligations (Proofs/GenAgreeCollatorAnchored.v)",
+        _collator_trusted_base()])
+
+
+def _collator_trusted_base():
+    try:
+        from harness.translate import x_collator
+        return x_collator.TRUSTED_BASE
+    except Exception:  # the translator module is missing: the obligations gate reports it
+        return "collator translator harness/translate/x_collator.py not importable"
 
 
 def replay(path):
